@@ -100,6 +100,19 @@ func c01Gen(c *core.Ctx) func(yield func(c01Case) bool) {
 					}
 				}
 			}
+			// one substituted component, every substitution timing: whenever such a start succeeds,
+			// all holders and the lookup must still see one object
+			for node := 0; node < 3; node++ {
+				for plan := scen.WrapBefore; plan < scen.NumWrapPlans; plan++ {
+					wrap := []int{0, 0, 0}
+					wrap[node] = plan
+					for _, base := range [][]int{{0, 1, 2}, {2, 1, 0}} {
+						if ok = yield(c01Case{scen.GraphProg{N: 3, Edges: e, Wrap: wrap, Base: base, Family: "three-n3-onewrap"}, 0}); !ok {
+							return false
+						}
+					}
+				}
+			}
 			return true
 		})
 		if !ok || !c.Thorough() {
